@@ -141,11 +141,12 @@ def child_slots(kind):
             'Projection': ['lhs', 'rhs'], 'Condition': ['predicate', 'then'], 'Comparison': ['lhs', 'rhs']}.get(kind, [])
 
 def job_ast(item):
-    top, forced, height, ddepth, deadline, cap = item
+    top, forced, height, ddepth, deadline, cap = item[:6]; lite = len(item) > 6 and item[6]
     from . import symast as SA
     prog = PROG; eng = Engine(prog); eng.deadline = deadline; S = Summary(); XP.init_decls(prog)
     ex0 = PathExec(eng, []); rtc = XP.mk_runtime(ex0); oracle = ER.Oracle(prog)
-    aspec = SA.AstSpec(prog, height)
+    aspec = SA.AstSpec(prog, height) if not lite else SA.AstSpec(prog, height, fields=('a', 'b'), leaf=['Identity', 'Field', 'Index', 'Literal'],
+                                                              lit_spec=SY.DocSpec(depth=0, A=0, keys=(), strs=('', 'a'), nums=[0, 1]))
     dspec = SY.DocSpec(depth=ddepth, A=2, keys=('a', 'b'), strs=('', 'a'), nums=[0, 1, -1, 1.5])
     def body(ex):
         ast = SA.sym_ast(ex, aspec); ex.ast = ast
@@ -238,14 +239,20 @@ def run(run):
     from . import symast as SA
     jobs = [('expr',) + j for j in jobs]
     if quick:
-        ajobs = [('ast', k, (), 1, 2, dl, 40000) for k in SA.COMPOUND]
+        ajobs = [('ast', k, (), 1, 2, dl, 10**7, True) for k in SA.COMPOUND if k != 'Comparison']
+        ajobs = [('ast', 'Comparison', (c1, c2), 1, 1, dl, 10**7, True) for c1 in ['Identity', 'Field', 'Index', 'Literal'] for c2 in ['Identity', 'Field', 'Index', 'Literal']] + ajobs
     else:
-        ajobs = [('ast', k, (), 1, 3, dl, 10**7) for k in SA.COMPOUND]
+        ajobs = []
         for k in SA.COMPOUND:
-            slots = child_slots(k)
-            if not slots: ajobs.append(('ast', k, (), 2, 2, dl, 10**7)); continue
-            for c1 in SA.LEAF + SA.COMPOUND: ajobs.append(('ast', k, (c1,), 2, 2, dl, 10**7))
-    run.bounds['symbolic ASTs'] = ('height 1: every compound node kind over leaf children {Identity, Field in {a,b,absent}, Index (any lexer-range i32), Literal (symbolic depth-1 value), Slice (parts from a small set)}'
-                                   + ('' if quick else '; height 2: every compound kind over every child kind (sharded by top kind x first child kind)') + '; documents depth 2 (height-1 in thorough: depth 3)')
+            slots = child_slots(k); dd = 1 if k == 'Comparison' else 2
+            if not slots: ajobs.append(('ast', k, (), 1, dd, dl, 10**7, False)); continue
+            for c1 in SA.LEAF: ajobs.append(('ast', k, (c1,), 1, dd, dl, 10**7, False))
+        for k in SA.COMPOUND:                      # height 2, reduced leaf alphabet, sharded by first child kind
+            slots = child_slots(k); dd = 1 if k == 'Comparison' else 2
+            if not slots: ajobs.append(('ast', k, (), 2, dd, dl, 10**7, True)); continue
+            for c1 in ['Identity', 'Field', 'Index', 'Literal'] + SA.COMPOUND: ajobs.append(('ast', k, (c1,), 2, 1 if 'Comparison' in (k, c1) else dd, dl, 10**7, True))
+    run.bounds['symbolic ASTs'] = ('height 1: every compound node kind over leaf children ' + ('{Identity, Field in {a,b}, Index (any lexer-range i32), Literal (symbolic scalar)}' if quick else
+                                   '{Identity, Field in {a,b,absent}, Index (any lexer-range i32), Literal (symbolic depth-1 value), Slice (symbolic start/stop/step)}; height 2 over the reduced leaf alphabet, sharded by top kind x first child kind')
+                                   + '; documents depth 2, arrays <= 2, keys {a,b} (depth 1 where a Comparison node is involved: deep equality is decided by C10)')
     run_jobs(run, ajobs + jobs, task, 'mirsym: symbolic ASTs and concrete expressions x symbolic documents vs reference evaluator')
     run.confirm_all(confirm)
